@@ -2,8 +2,8 @@
 # Build a private copy of the harness with other builders' in-progress modules replaced by the committed stubs.
 set -e
 mkdir -p /tmp/me-harness
-rsync -a --delete --exclude target --exclude 'target-*' /verif/harness/ /tmp/me-harness/ --exclude 'src/props/c15*' --exclude 'src/props/c17*' --exclude 'src/props/c18*'
+rsync -a --delete --exclude target --exclude 'target-*' /verif/harness/ /tmp/me-harness/ --exclude 'src/props/c15*' --exclude 'src/props/c18*'
 for f in "$@"; do :; done
-cd /verif && for n in 15 17 18; do git show HEAD:harness/src/props/c$n.rs > /tmp/me-harness/src/props/c$n.rs; done
+cd /verif && for n in 15 18; do git show baa5af2:harness/src/props/c$n.rs > /tmp/me-harness/src/props/c$n.rs; done
 cd /tmp/me-harness && cargo build --release --offline 2>&1 | grep -E "^(error|warning: unused)" -A14 | head -${LINES_MAX:-80}
 ls -la /tmp/me-harness/target/release/vh | awk '{print $6,$7,$8}'
